@@ -386,11 +386,13 @@ def order_rules(ctx, crate):
         sets = []
         for bi, si in [(bi, si) for l, nm in t.names.items() if t.locals[l]["ty"] == "bool" for bi, si in t.defs.get(l, [])]:
             if const_bool(t.def_expr(bi, si)) is True:
-                facts = dom_facts(t, bi)
+                from ..etag import derived_facts
+                facts = derived_facts(t, [(strip_sites(a), v) for a, v in dom_facts(t, bi)], with_dom=True)
                 sets.append(any(a[0] == "bin" and a[1] == "Eq" and mir.const_int(a[3]) == 0 and v is True and
                                 "status" in render(a) for a, v in facts) or
                             any(a[0] == "call" and last_seg(a[1]) == "eq" and any(s[0] == "agg" and s[1].endswith("KW_ELSE")
-                                                                               for s in mir.subexprs(a)) and v is True for a, v in facts))
+                                                                               for s in mir.subexprs(a)) and v is True for a, v in facts) or
+                            any(a[0] == "discr" and v == "KW_ELSE" for a, v in facts))
         ctx.ob("R14-4", t.path, "test_pass is set by status == 0 of the head command (or by `else`)", bool(sets) and all(sets),
                key="R14-4|%s|test-status" % t.path, crate=crate.kind)
     w = crate.fn("scripting::run_exp_while")
